@@ -162,11 +162,15 @@ impl FeoxStore {
         let record_size = self.calculate_record_size(key.len(), value.len());
 
         loop {
+            #[cfg(feoxdb_verif)]
+            crate::verif::sched::point("ins_loop");
             let existing_record = self.hash_table.read(key, |_, v| v.clone());
             if let Some(existing_record) = existing_record {
                 if timestamp <= existing_record.timestamp {
                     return Err(FeoxError::OlderTimestamp);
                 }
+                #[cfg(feoxdb_verif)]
+                crate::verif::sched::point("ins_read");
                 crate::test_hooks::pause_at(crate::test_hooks::AFTER_UPSERT_READ);
 
                 match self.update_record_with_ttl(
@@ -181,6 +185,8 @@ impl FeoxStore {
                 }
             }
 
+            #[cfg(feoxdb_verif)]
+            crate::verif::sched::point("ins_vacant");
             let reservation = self.reserve_memory(record_size)?;
 
             let record = if ttl_expiry > 0 && self.enable_ttl {
@@ -278,11 +284,15 @@ impl FeoxStore {
     ) -> Result<bool> {
         let new_size = self.calculate_record_size(key.len(), value.len());
         loop {
+            #[cfg(feoxdb_verif)]
+            crate::verif::sched::point("ins_loop");
             let existing_record = self.hash_table.read(key, |_, v| v.clone());
             if let Some(existing_record) = existing_record {
                 if timestamp <= existing_record.timestamp {
                     return Err(FeoxError::OlderTimestamp);
                 }
+                #[cfg(feoxdb_verif)]
+                crate::verif::sched::point("ins_read");
 
                 match self.update_record_with_ttl_bytes(
                     &existing_record,
@@ -296,6 +306,8 @@ impl FeoxStore {
                 }
             }
 
+            #[cfg(feoxdb_verif)]
+            crate::verif::sched::point("ins_vacant");
             let reservation = self.reserve_memory(new_size)?;
 
             let record = if ttl_expiry > 0 {
@@ -513,6 +525,8 @@ impl FeoxStore {
         let start = std::time::Instant::now();
         self.validate_key(key)?;
         let (timestamp, explicit_timestamp) = self.resolve_timestamp(key, timestamp);
+        #[cfg(feoxdb_verif)]
+        crate::verif::sched::point("del_guard");
 
         let (record, old_value_len) = match self.hash_table.entry(key.to_vec()) {
             scc::hash_map::Entry::Occupied(entry) => {
